@@ -28,6 +28,8 @@ def gen_len(rng):
 
 
 def gen_spacing(rng):
+    if rng.random() < 0.06:
+        return rng.choice([1, 2, 1])       # an integer spacing (the grid is then an integer array until a float spacing is assigned)
     if rng.random() < 0.45:
         return rng.choice(DECIMAL)
     return math.exp(rng.uniform(math.log(1e-3), math.log(2.0)))
